@@ -5,7 +5,12 @@ Direct oracle (never uses the model): generated SEG-Y files (regular / irregular
 fields constant, varying, duplicated, equal-at-both-ends, negative, at the extremes of their 2- or 4-byte width; trace
 counts with 4*n mod 512 in {0, 4, 508} and 1..3 strides) x the four detection modes: gen_trace_header(i) (both access
 paths), header[i], get_tracefield_values(f), variant_headers, bin, text against segyio on the source, and bytes
-4096..7695 of the SGZ against the first 3600 bytes of the SEG-Y.  NumPy route: header dicts of any integer dtype in
+4096..7695 of the SGZ against the first 3600 bytes of the SEG-Y.  On every such file and mode, seeded sequences of header
+calls on ONE SgzReader and on ONE seismic_zfp.open() object (gen_trace_header with and without load_all_headers,
+header[i] / header[a:b:c], get_tracefield_values, get_tracefield_1d / attributes, read_variant_headers with either
+padding mode and with field lists, clear_variant_headers; stored, duplicate and constant fields; ordinals around the
+first hole; bulk before single and single before bulk, a field twice, a partly filled memo, padding-mode switches):
+every answer is the source's value, whatever was called before.  NumPy route: header dicts of any integer dtype in
 either byte order (1, 2, 4, 8 bytes, signed and unsigned; every one of them in each covering case), in C / Fortran /
 strided-view memory layout, any set of fields (incl. codes > 193), default inline/crossline headers built from axes
 given as arrays of any of those dtypes.
@@ -341,6 +346,184 @@ def make_checker(inp, o, ts):
     return chk
 
 
+# ------------------------------------------------------------------------------------------------ sequences on ONE reader object
+# State carried between header calls (the memo variant_headers, its padding mode, the hole mask): every answer of every call
+# in a sequence on one object must be the source's value for that trace / field, i.e. what a fresh reader answers.
+def seq_pools(template):
+    """the kinds of field of one file: stored arrays, duplicates of a stored array, non-zero constants, zero constants"""
+    seen, stored, dups, cnz, cz = set(), [], [], [], []
+    for k, isoff, v in template:
+        if isoff:
+            (dups if v in seen else stored).append(k)
+            seen.add(v)
+        else:
+            (cnz if v != 0 else cz).append(k)
+    return stored, dups, cnz, cz
+
+
+def seq_ordinals(n, grid_pos):
+    """first / last / middle, and the ordinals just before, at and after the first hole of an irregular grid"""
+    ts = {0, n - 1, n // 2}
+    if grid_pos is not None:
+        moved = np.where(np.asarray(grid_pos) != np.arange(n))[0]
+        if len(moved):
+            ts |= {int(moved[0]) + dt for dt in (-1, 0, 1) if 0 <= int(moved[0]) + dt < n}
+    return sorted(ts)
+
+
+def gen_sequence(rng, n, kind, grid_pos, pools, motifs, emulator):
+    """operations as JSON lists.  The padding mode of the memo is tracked so that an explicit read_variant_headers is only
+    issued where it is legal (on 2D / irregular files a mode change without clear_variant_headers is refused by design)"""
+    stored, dups, cnz, cz = pools
+    unstructured = kind != 'regular'
+    special = seq_ordinals(n, grid_pos)
+
+    def fld():
+        for pool, w in ((stored, 0.5), (dups, 0.4), (cnz, 0.6), (cz, 1.0)):
+            if pool and rng.random() < w:
+                return rng.choice(pool)
+        return rng.choice(stored or cnz or cz)
+
+    def tr():
+        return rng.choice(special) if rng.random() < 0.7 else rng.randrange(n)
+
+    def some_fields():
+        fs = rng.sample(stored + dups, rng.randint(1, min(3, len(stored + dups)))) if stored else [fld()]
+        return fs + ([rng.choice(cnz + cz)] if rng.random() < 0.3 else [])
+
+    f1, f2 = fld(), fld()
+    all_motifs = {
+        'bulk_then_single': [['tfv', f1], ['gth', tr()], ['gth', tr()]],
+        'single_then_bulk': [['gth', tr()], ['tf1d', f1], ['gth_all', tr()]],
+        'same_field_twice': [['tf1d', f1], ['tf1d', f1], ['gth', tr()], ['tfv', f1]],
+        'partly_filled_memo': [['rvh', rng.random() < 0.5, some_fields()], ['gth_all', tr()], ['tf1d', f2], ['gth', tr()], ['rvh', rng.random() < 0.5, None]],
+        'padding_switch': [['rvh', True, None], ['gth', tr()], ['tf1d', f2], ['rvh', False, some_fields()], ['tfv', f1], ['gth_all', tr()]],
+        'clear_between': [['tf1d', f1], ['clear'], ['gth', tr()], ['clear'], ['tfv', f2], ['rvh', rng.random() < 0.5, None]],
+    }
+    ops = []
+    for m in motifs:
+        ops += all_motifs[m]
+    for _ in range(rng.randint(3, 7)):
+        k = rng.choice(['gth', 'gth', 'gth_all', 'tfv', 'tf1d', 'tf1d', 'rvh', 'clear'])
+        ops.append({'gth': lambda: ['gth', tr()], 'gth_all': lambda: ['gth_all', tr()], 'tfv': lambda: ['tfv', fld()],
+                    'tf1d': lambda: ['tf1d', fld()], 'clear': lambda: ['clear'],
+                    'rvh': lambda: ['rvh', rng.random() < 0.5, None if rng.random() < 0.5 else some_fields()]}[k]())
+    out, ps = [], None
+    for op in ops:
+        if emulator:        # the object seismic_zfp.open() returns: header[] (own memo), attributes() and the reader methods (shared memo)
+            if op[0] == 'gth' and rng.random() < 0.7:
+                t = op[1]
+                op = rng.choice([['header', t], ['header', t - n], ['header_slice', t, min(n, t + 3), 1], ['header_slice', t, max(-1, t - 3) if t >= 3 else None, -1]])
+            elif op[0] == 'tf1d' and rng.random() < 0.7:
+                op = ['attributes', op[1]]
+        if op[0] == 'rvh' and unstructured and ps not in (None, op[1]):
+            out.append(['clear'])
+            ps = None
+        out.append(op)
+        if op[0] == 'clear':
+            ps = None
+        elif op[0] in ('gth', 'gth_all'):
+            if stored and (unstructured or (op[0] == 'gth_all' and ps is None)):
+                ps = False
+        elif op[0] in ('tfv', 'tf1d', 'attributes'):
+            if unstructured or ps is None:
+                ps = True
+        elif op[0] == 'rvh' and ps is None:
+            ps = op[1]
+        op.append(ps)            # the mode the memo is in after the call (None: empty or never loaded)
+    return out
+
+
+def run_sequence(obj, ops, E, n, kind, shape, grid_pos, template):
+    """runs ops on obj; returns None or (number of ops run, what differed)"""
+    isoff = {k for k, off, _ in template if off}
+    jx = {f: j for j, f in enumerate(FIELDS)}
+
+    def col(f, padded):
+        if kind == 'irregular' and padded:
+            c = np.zeros(shape[0] * shape[1], dtype=np.int64)
+            c[grid_pos] = E[:, jx[f]]
+            return c
+        return E[:, jx[f]]
+
+    def same_row(h, t):
+        row = hrow(h)
+        if row != [int(v) for v in E[t]]:
+            j = [x != y for x, y in zip(row, E[t])].index(True)
+            return f'[{FIELDS[j]}] = {row[j]}, expected {int(E[t, j])}'
+
+    for k, op in enumerate(ops):
+        name, ps = op[0], op[-1]
+        bad = None
+        try:
+            if name in ('gth', 'gth_all'):
+                bad = same_row(obj.gen_trace_header(op[1], load_all_headers=name == 'gth_all') if name == 'gth_all' else obj.gen_trace_header(op[1]), op[1])
+            elif name == 'header':
+                bad = same_row(obj.header[op[1]], op[1] % n)
+            elif name == 'header_slice':
+                sl = slice(op[1], op[2], op[3])
+                got = obj.header[sl]
+                want = list(range(*sl.indices(n)))
+                bad = f'{len(got)} headers, expected {len(want)}' if len(got) != len(want) else next((f'trace {t}: {b}' for t, b in ((t, same_row(h, t)) for h, t in zip(got, want)) if b), None)
+            elif name in ('tf1d', 'attributes', 'tfv'):
+                f = op[1] if k % 2 else TF(op[1])
+                v = np.asarray({'tf1d': obj.get_tracefield_1d, 'attributes': getattr(obj, 'attributes', None), 'tfv': obj.get_tracefield_values}[name](f))
+                want = col(op[1], True)
+                if name == 'tfv' and kind != '2d':
+                    want = want.reshape(shape)
+                if v.shape != want.shape or not np.array_equal(v.astype(np.int64), want):
+                    d0 = np.argwhere(v.astype(np.int64) != want)[0].tolist() if v.shape == want.shape else None
+                    bad = (f'shape {v.shape}, expected {want.shape}' if d0 is None else
+                           f'at {d0}: {int(v[tuple(d0)])}, expected {int(want[tuple(d0)])} ({int((v != want).sum())} values differ)')
+            elif name == 'clear':
+                obj.clear_variant_headers()
+                if len(obj.variant_headers):
+                    bad = f'{len(obj.variant_headers)} arrays left'
+            elif name == 'rvh':
+                fs = op[2]
+                obj.read_variant_headers(include_padding=op[1], tracefields=None if fs is None else [f if i % 2 else TF(f) for i, f in enumerate(fs)])
+                vh = {int(kk): np.asarray(v).astype(np.int64) for kk, v in obj.variant_headers.items()}
+                missing = [f for f in (fs if fs is not None else sorted(isoff)) if f in isoff and f not in vh]
+                extra = [f for f in vh if f not in isoff]
+                wrong = [f for f, v in vh.items() if f in isoff and (v.shape != col(f, ps).shape or not np.array_equal(v, col(f, ps)))]
+                if missing or extra or wrong:
+                    bad = (f'variant_headers afterwards: missing {missing}, not stored fields {extra}, arrays that are not the source column '
+                           f'{"with" if ps else "without"} padding {wrong}')
+        except Exception as e:
+            import traceback
+            bad = (f'raised {type(e).__name__}: {e} @ ' +
+                   ' <- '.join(f'{os.path.basename(fr.filename)}:{fr.lineno}' for fr in traceback.extract_tb(e.__traceback__)[-3:]))
+        if bad:
+            return k + 1, f'{name}{tuple(op[1:-1])}: {bad}'
+    return None
+
+
+SEQ_MOTIFS = ['bulk_then_single', 'single_then_bulk', 'same_field_twice', 'partly_filled_memo', 'padding_switch', 'clear_between']
+
+
+def sequence_checks(inp, p, label, mode, E, reference, n, kind, shape, grid_pos, template):
+    import seismic_zfp
+    rng = random.Random(f'{a.seed}:{label}:{mode}:sequences')       # own stream: the cases above do not depend on it
+    pools = seq_pools(template)
+    rounds = 1 if QUICK and not a.search else 3
+    for rd in range(rounds):
+        motifs = rng.sample(SEQ_MOTIFS, len(SEQ_MOTIFS))
+        for who, ms in (('SgzReader', motifs[:3]), ('SgzReader', motifs[3:]), ('seismic_zfp.open', rng.sample(motifs, 3))):
+            ops = gen_sequence(rng, n, kind, grid_pos, pools, ms, emulator=who != 'SgzReader')
+            try:
+                with (SgzReader(p) if who == 'SgzReader' else seismic_zfp.open(p)) as obj:
+                    res = run_sequence(obj, ops, E, n, kind, shape, grid_pos, template)
+            except Exception as e:
+                res = (0, f'opening raised {type(e).__name__}: {e}')
+            R.count('sequences')
+            R.count('sequence_calls', len(ops))
+            R.count(f'sequences:{kind}:{mode}')
+            if res is not None:
+                R.violation('oracle', dict(inp, check='sequence on one ' + who, reference=reference, motifs=ms,
+                                           sequence=[op[:-1] for op in ops[:res[0]]], memo_padding_after_each=[op[-1] for op in ops[:res[0]]]),
+                            f'call {res[0]} of a sequence on one {who} object differs from the {reference}: {res[1]}')
+
+
 # ------------------------------------------------------------------------------------------------ SEG-Y cases
 def segy_case(label, kind, dims, how_many, clean, blockshape=None, bpv=8, reduce_iops=False, fmt=5):
     rng = random.Random(f'{a.seed}:{label}')          # every case is reproducible on its own (--replay <label>)
@@ -428,6 +611,9 @@ def segy_case(label, kind, dims, how_many, clean, blockshape=None, bpv=8, reduce
             expect = truth if hyp else None
             R.count('heuristic_inside_hypothesis' if hyp else 'heuristic_outside_hypothesis')
         check_oracle(inp, o, expect, n, kind, shape, sgy_bytes, sbin, stext, grid_pos)
+        # heuristic outside its hypothesis: the source is not the reference, a fresh reader's full read is
+        sequence_checks(inp, p, label, mode, expect if expect is not None else o['gth'], 'source SEG-Y' if expect is not None else 'fresh reader',
+                        n, kind, shape, grid_pos, o['template'])
         nontrivial = bool((truth != truth[0]).any()) or (mode == 'strip' and bool(truth.any()))
         R.case((label, mode, n, tuple(sorted(kinds_s.items()))), nontrivial,
                sample={'case': label, 'n': n, 'mode': mode, 'fields': kinds_s, 'stored_arrays': struct.unpack('<I', o['raw'][64:68])[0]})
